@@ -24,6 +24,7 @@ import fandango.language.grammar.nodes.repetition as R
 import fandango.language.grammar.nodes.terminal as TT
 import fandango.evolution.crossover as XO
 import fandango.evolution.mutation as MU
+import fandango.constraints.repetition_bounds as RB
 
 REPAIR_SPECS = {
     "rep2": '<start> ::= <n> ":" (<a> <b>){int(<n>)} ";"\n<n> ::= "0" | "1" | "2" | "3"\n<a> ::= "a"\n<b> ::= "b" | "c"\n',
@@ -77,8 +78,8 @@ def clear(cs):
 def pipeline(choices):
     """returns the list of trees produced, in order"""
     r = Rnd(choices)
-    saved = (A.random, R.random, TT.random, XO.random, MU.random)
-    A.random = R.random = TT.random = XO.random = MU.random = r
+    saved = (A.random, R.random, TT.random, XO.random, MU.random, RB.random)
+    A.random = R.random = TT.random = XO.random = MU.random = RB.random = r
     produced = []
     try:
         clear(CS)
@@ -105,7 +106,7 @@ def pipeline(choices):
             except StopIteration as e:
                 produced.append(e.value)
     finally:
-        A.random, R.random, TT.random, XO.random, MU.random = saved
+        A.random, R.random, TT.random, XO.random, MU.random, RB.random = saved
     if r.i != len(choices):
         raise IgnoreAttempt("unused choices")
     return produced
@@ -161,8 +162,8 @@ def _record(seed):
         def random(self):
             return 0.5
 
-    saved = (A.random, R.random, TT.random, XO.random, MU.random)
-    A.random = R.random = TT.random = XO.random = MU.random = Rec()
+    saved = (A.random, R.random, TT.random, XO.random, MU.random, RB.random)
+    A.random = R.random = TT.random = XO.random = MU.random = RB.random = Rec()
     global Rnd
     keep = Rnd
     try:
@@ -177,7 +178,7 @@ def _record(seed):
             pass
     finally:
         Rnd = keep
-        A.random, R.random, TT.random, XO.random, MU.random = saved
+        A.random, R.random, TT.random, XO.random, MU.random, RB.random = saved
     return seq
 
 
